@@ -8,6 +8,7 @@ import (
 	"fmt"
 	"io"
 	"strconv"
+	"strings"
 	"time"
 
 	toml "github.com/pelletier/go-toml/v2/unstable"
@@ -156,6 +157,11 @@ func (dec *tomlDecoder) createBoolScalar(tomlNode *toml.Node) (*CandidateNode, e
 
 func (dec *tomlDecoder) createIntegerScalar(tomlNode *toml.Node) (*CandidateNode, error) {
 	content := string(tomlNode.Data)
+	if strings.HasPrefix(content, "0b") {
+		// TOML also has binary integers, which parseInt64 (YAML spellings) does not know
+		num, err := strconv.ParseInt(strings.ReplaceAll(content[2:], "_", ""), 2, 64)
+		return createScalarNode(num, fmt.Sprintf("%v", num)), err
+	}
 	_, num, err := parseInt64(content)
 	return createScalarNode(num, content), err
 }
@@ -182,6 +188,9 @@ func (dec *tomlDecoder) decodeNode(tomlNode *toml.Node) (*CandidateNode, error) 
 		return dec.createIntegerScalar(tomlNode)
 	case toml.DateTime:
 		return dec.createDateTimeScalar(tomlNode)
+	case toml.LocalDate, toml.LocalTime, toml.LocalDateTime:
+		// dates and times without an offset: keep the text
+		return dec.createStringScalar(tomlNode)
 	case toml.Float:
 		return dec.createFloatScalar(tomlNode)
 	case toml.Array:
